@@ -191,6 +191,10 @@ func (w *cfw) matcher(name string, value any) {
 				}
 				return "*"
 			}
+			if _, re := r["name_regexp"]; re || r["type_regexp"] != nil || r["class_regexp"] != nil {
+				w.line("%s_regexp %s %s %s", kind, f("name_regexp"), f("type_regexp"), f("class_regexp"))
+				return
+			}
 			w.line("%s %s %s %s", kind, f("name"), f("type"), f("class"))
 		}
 		for _, r := range v["allow"].([]any) {
@@ -201,6 +205,9 @@ func (w *cfw) matcher(name string, value any) {
 		}
 		if b, _ := v["default_deny"].(bool); b {
 			w.line("default_deny")
+		}
+		if b, _ := v["prefer_allow"].(bool); b {
+			w.line("prefer_allow")
 		}
 		w.close()
 	case "clock":
